@@ -190,6 +190,14 @@ def check_split(prog: Program, res: Result) -> None:
             if isinstance(n_, ast.Subscript) and isinstance(n_.value, ast.Name) and any(astq.mask_of(fi.node, n_.slice, at=n_) is c_ for c_ in same):
                 sites.setdefault(n_.value.id, n_)
         siblings = [pts, vals] + ([cinds] if cinds != "_" else [])
+        # an array may reach the split under another name after element-wise rescaling (x = pts * stride / scale)
+        for k_, arr in enumerate(list(siblings)):
+            if arr not in sites:
+                derived = astq.dep_closure(list(fi.node.body), {arr}) & set(sites)
+                others = set(siblings) - {arr}
+                derived = {d_ for d_ in derived if d_ not in others and not (astq.dep_closure(list(fi.node.body), others) & {d_})}
+                if len(derived) == 1:
+                    siblings[k_] = next(iter(derived))
         for arr in siblings:
             res.ob(R, arr in sites, fi.qualname, f"{arr} split by the sample mask", f"`{arr}` is not selected with the per-sample mask on `{sinds}`: "
                    "peaks of other frames of the batch end up in this frame's output", f"{fi.module.relpath}:{M.lineno}", sample={"array": arr})
@@ -256,13 +264,24 @@ def check_sort(prog: Program, res: Result) -> None:
         res.ob(R, ok, fi.qualname, "sorted by instance score", f"instances are sorted by `{short(key, 40) if key is not None else 'default order'}`", f"{fi.module.relpath}:{c.lineno}")
         rv = kw.get("reverse")
         res.ob(R, isinstance(rv, ast.Constant) and rv.value is True, fi.qualname, "descending", "the sort is ascending: the LOWEST scoring instances are kept", f"{fi.module.relpath}:{c.lineno}")
-        st = enclosing_stmt(c)
-        name = norm(st.targets[0]) if isinstance(st, ast.Assign) else None
-        blk = st._parent.body
-        nxt = blk[blk.index(st) + 1] if blk.index(st) + 1 < len(blk) else None
-        ok = isinstance(nxt, ast.Assign) and isinstance(nxt.value, ast.Subscript) and norm(nxt.value.value) == name and isinstance(nxt.value.slice, ast.Slice) \
-            and nxt.value.slice.lower is None and "max_instances" in norm(nxt.value.slice.upper) and norm(nxt.targets[0]) == name
-        res.ob(R, ok, fi.qualname, "slice [:max_instances] of the sorted list", "the max_instances cut is not a prefix slice of the sorted list", f"{fi.module.relpath}:{c.lineno}")
+        # the cut: some  T = S[: ...max_instances...]  whose S is this sorted(...) list (directly or through a name)
+        cuts = []
+        for st2 in walk_function(fi.node):
+            if isinstance(st2, ast.Assign) and len(st2.targets) == 1 and isinstance(st2.targets[0], ast.Name) and isinstance(st2.value, ast.Subscript) \
+                    and isinstance(st2.value.slice, ast.Slice) and st2.value.slice.lower is None and st2.value.slice.step is None \
+                    and st2.value.slice.upper is not None and "max_instances" in norm(astq.expand_at(fi.node, st2.value.slice.upper, st2)):
+                base, at_ = st2.value.value, st2
+                for _ in range(3):   # follow names back to the value that reaches the slice
+                    if not isinstance(base, ast.Name):
+                        break
+                    rd = astq.reaching_def(fi.node, base.id, at_)
+                    if rd is None:
+                        break
+                    base, at_ = rd.value, getattr(rd, "_orig", rd)
+                if base is c:
+                    cuts.append(st2)
+        name = cuts[0].targets[0].id if len(cuts) == 1 else None
+        res.ob(R, len(cuts) == 1, fi.qualname, "slice [:max_instances] of the sorted list", "the max_instances cut is not a prefix slice of the sorted list", f"{fi.module.relpath}:{c.lineno}")
         # what is sorted is the COMPLETE list of the frame's instances: the loop that fills it visits every grouped
         # instance (no break / return; `continue` only for an all-NaN instance)
         srt_arg = c.args[0] if c.args else None
